@@ -20,8 +20,25 @@ typedef struct bfs_sys {
 	size_t state_cap; int depth_cap;      /* depth_cap 0 = run to fixpoint */
 	const char *viol_key;
 } bfs_sys;
+struct bfs_sys;
 static char bfs_fail[1024];
 
+/* State identity.  White-box build: the harness hashes the private fields of the live objects, so different histories that reach
+ * the same state are merged and searches run to a fixpoint.  Black-box build (-DVH_BLACKBOX: chosen by the driver when the white-box
+ * view no longer compiles, e.g. after private fields were renamed): no private view is available and nothing is merged -- the
+ * identity of a state is its history, and a search that would have run to a fixpoint becomes the full tree up to BFS_BLACKBOX_DEPTH. */
+#ifndef BFS_BLACKBOX_DEPTH
+#define BFS_BLACKBOX_DEPTH (vh_thorough ? 5 : 3)
+#endif
+static uint64_t bfs_state_id(struct bfs_sys *S, const int *ops, int n);
+
+static uint64_t bfs_state_id(struct bfs_sys *S, const int *ops, int n) {
+#ifdef VH_BLACKBOX
+	uint64_t h = vh_mix(0xb1ac, (uint64_t) n); for (int i = 0; i < n; i++) h = vh_mix(h, (uint64_t) ops[i] + 1); return h;
+#else
+	(void) ops; (void) n; return S->canon(S->ctx);
+#endif
+}
 typedef struct { int parent; int op; uint64_t canon; int depth; } bfs_node;
 static bfs_node *bfs_nodes; static size_t bfs_nnodes, bfs_capnodes;
 static int bfs_hist(int s, int *ops) { int d = bfs_nodes[s].depth; for (int i = d - 1, c = s; i >= 0; i--) { ops[i] = bfs_nodes[c].op; c = bfs_nodes[c].parent; } return d; }
@@ -40,7 +57,7 @@ static bool bfs_replay(bfs_sys *S, const int *ops, int nops, uint64_t *canon_out
 		if (!S->step(S->ctx, ops[i])) { vh_violation(S->viol_key, "%s  [%s]", bfs_fail, S->explain(S->ctx, ops, i + 1)); ok = false; break; }
 		VH_COUNT("transitions", 1);
 	}
-	if (ok && canon_out) *canon_out = S->canon(S->ctx);
+	if (ok && canon_out) *canon_out = bfs_state_id(S, ops, nops);
 	S->close(S->ctx);
 	VH_COUNT("executions", 1);
 	return ok;
@@ -54,15 +71,20 @@ static bool bfs_run(bfs_sys *S) {
 	bfs_push(-1, 0, h0, 0); vh_set_add(&seen, h0);
 	bool ok = true; int maxdepth = 0;
 	size_t cap = S->state_cap ? S->state_cap : 100000;
+	int depth_cap = S->depth_cap;
+#ifdef VH_BLACKBOX
+	if (!depth_cap || depth_cap > BFS_BLACKBOX_DEPTH) depth_cap = BFS_BLACKBOX_DEPTH;
+	VH_COUNT("blackbox_searches", 1);
+#endif
 	for (size_t s = 0; s < bfs_nnodes && ok; s++) {
 		if ((s & 31) == 0 && vh_time_up()) { VH_COUNT("searches_stopped_by_budget", 1); break; }
 		int base[BFS_MAXD + 2]; int d = bfs_hist((int) s, base);
-		if (d >= BFS_MAXD || (S->depth_cap && d >= S->depth_cap)) { if (!S->depth_cap) VH_COUNT("bfs_depth_cap_hit", 1); continue; }
+		if (d >= BFS_MAXD || (depth_cap && d >= depth_cap)) { if (!depth_cap) VH_COUNT("bfs_depth_cap_hit", 1); continue; }
 		/* find the alphabet of this state */
 		int alpha[512]; int na;
 		if (S->open(S->ctx)) { vh_violation("open", "%s", bfs_fail); return false; }
 		bool pre = true; for (int i = 0; i < d && pre; i++) pre = S->step(S->ctx, base[i]);
-		if (!pre || S->canon(S->ctx) != bfs_nodes[s].canon) { printf("@error \"bfs: replay of a checked history diverged (%s)\"\n", pre ? "canonical state differs" : "oracle now fails"); S->close(S->ctx); return false; }
+		if (!pre || bfs_state_id(S, base, d) != bfs_nodes[s].canon) { printf("@error \"bfs: replay of a checked history diverged (%s)\"\n", pre ? "canonical state differs" : "oracle now fails"); S->close(S->ctx); return false; }
 		na = S->alphabet(S->ctx, alpha, 512);
 		S->close(S->ctx);
 		for (int ai = 0; ai < na; ai++) {
@@ -72,7 +94,7 @@ static bool bfs_run(bfs_sys *S) {
 			if (!pre) { printf("@error \"bfs: replay of a checked history failed\"\n"); S->close(S->ctx); return false; }
 			memcpy(S->ops, base, d * sizeof(int)); S->ops[d] = alpha[ai]; S->nops = d + 1;
 			if (!S->step(S->ctx, alpha[ai])) { vh_violation(S->viol_key, "%s  [%s]", bfs_fail, S->explain(S->ctx, S->ops, d + 1)); S->close(S->ctx); ok = false; break; }
-			uint64_t h = S->canon(S->ctx);
+			uint64_t h = bfs_state_id(S, S->ops, d + 1);
 			S->close(S->ctx);
 			VH_COUNT("transitions", 1); VH_COUNT("executions", 1);
 			if (vh_set_add(&seen, h)) {
